@@ -42,7 +42,8 @@ RULE = (
     "metadata) - every derived view is compared with its definition computed "
     "from the generating matrices; from_matrices(**to_dict()) directly and "
     "through JSON, and from_taillard_file on text the check writes, must "
-    "reproduce operations, name and metadata; then a tour of consumers "
+    "reproduce operations, name and metadata (names may hold dots and blanks; the "
+    "rebuilt instance must itself convert to the same JSON text); then a tour of consumers "
     "(dispatcher with all feature observers, composite, history, unscheduled, "
     "rewards, residual updater and a filter over a history with a reset; all "
     "dispatching-rule solvers; CP-SAT; 4 graph builders; solved graph; an "
@@ -56,7 +57,11 @@ RULE = (
     "complete and realising exactly those sequences; otherwise "
     "ValidationError; each call runs under a 20 s alarm. Kind 'benchmark': "
     "load_benchmark_instance / load_all_benchmark_instances against the JSON "
-    "file read independently (5 fixed names + generated ones). Non-trivial: "
+    "file read independently (5 fixed names + generated ones). Kind 'generated': "
+    "an instance made by GeneralInstanceGenerator (generated parameters, name "
+    "suffix with dots / blanks): views against its operations, dictionary / JSON "
+    "/ Taillard conversions reproduce operations, name and metadata, and the "
+    "rebuilt instance converts to the same JSON text. Non-trivial: "
     "instance irregular, flexible or with recirculation; sequences case with a "
     "cyclic input or an accepted input different from seq(S)."
 )
@@ -65,6 +70,9 @@ ASSUMPTIONS = [
     "Taillard text written by the check: header line, one line per job of 'machine duration' pairs, optional # comment lines, optionally leading / trailing blanks on comment and job lines (the reader strips lines), single trailing newline",
     "'never a hang' is decided by a 20 s alarm around calls that normally take < 5 ms",
 ]
+
+
+_SUFFIX = st.text(alphabet="abX01_-. ", min_size=0, max_size=6)
 
 
 def strategy(tier):
@@ -99,7 +107,21 @@ def strategy(tier):
     k_bench = st.fixed_dictionaries(
         {"kind": st.just("benchmark"), "name": st.integers(0, 10**6)}
     )
-    return gen.weighted((8, k_inst), (8, k_sched), (1, k_bench))
+    k_gen = st.fixed_dictionaries(
+        {
+            "kind": st.just("generated"),
+            "jobs": st.tuples(st.integers(1, 4), st.integers(0, 2)).map(list),
+            "machines": st.tuples(st.integers(1, 4), st.integers(0, 2)).map(list),
+            "durations": st.tuples(st.integers(0, 9), st.integers(0, 9)).map(list),
+            "less": st.booleans(),
+            "recirc": st.booleans(),
+            "mpo": st.tuples(st.integers(1, 3), st.integers(0, 2)).map(list),
+            "suffix": _SUFFIX,
+            "seed": st.integers(0, 10**6),
+            "skip": st.integers(0, 3),
+        }
+    )
+    return gen.weighted((8, k_inst), (8, k_sched), (1, k_bench), (2, k_gen))
 
 
 def fixed_cases(tier):
@@ -198,6 +220,17 @@ def same_content(ctx, clause, a, b, what):
     ctx.check(fa == fb, clause, f"{what}: operations {fb} != original {fa}")
     ctx.check(a.name == b.name, clause, f"{what}: name {b.name!r} != {a.name!r}")
     ctx.check(dict(a.metadata) == dict(b.metadata), clause, f"{what}: metadata {b.metadata!r} != {a.metadata!r}")
+
+
+def json_stable(ctx, clause, original, rebuilt, what):
+    """A rebuilt instance converts to the same JSON text as the original."""
+    try:
+        text = json.dumps(rebuilt.to_dict(), sort_keys=True)
+    except (TypeError, ValueError) as e:
+        ctx.fail(clause, f"{what}: to_dict() of the rebuilt instance is not JSON-serialisable ({e})")
+    want = json.dumps(original.to_dict(), sort_keys=True)
+    ctx.check(text == want, clause, f"{what}: JSON of the rebuilt instance {text} != JSON of the original {want}")
+    same_content(ctx, clause, original, JobShopInstance.from_matrices(**json.loads(text)), what + ", once more through JSON")
 
 
 def taillard_text(inst, comments, indent=False):
@@ -329,7 +362,14 @@ def instance_case(case, ctx):
     dct["metadata"] = {"edited": True}
     dct["duration_matrix"] = [[x + 1 for x in row] for row in dct["duration_matrix"]]
     same_content(ctx, "to_dict-not-fresh", instance, JobShopInstance.from_matrices(**instance.to_dict()), "second to_dict() after the first result was edited")
-    same_content(ctx, "roundtrip:json", instance, JobShopInstance.from_matrices(**via_json), "from_matrices(**json(to_dict()))")
+    from_json = JobShopInstance.from_matrices(**via_json)
+    same_content(ctx, "roundtrip:json", instance, from_json, "from_matrices(**json(to_dict()))")
+    json_stable(ctx, "roundtrip:json", instance, from_json, "from_matrices(**json(to_dict()))")
+    ctx.check(
+        instance.name == inst["name"] and dict(instance.metadata) == inst["meta"],
+        "name-metadata",
+        f"instance built with name {inst['name']!r} and metadata {inst['meta']!r} reports name {instance.name!r} and metadata {instance.metadata!r}",
+    )
     if not flexible:
         with tempfile.TemporaryDirectory(prefix="c14_") as tmp:
             name = inst["name"]
@@ -344,6 +384,7 @@ def instance_case(case, ctx):
                 f.write(taillard_text(inst, case["comments"], indent=bool(case["tour"] & 128)))
             back = JobShopInstance.from_taillard_file(path, **kwargs, **inst["meta"])
         same_content(ctx, "roundtrip:taillard", instance, back, "from_taillard_file(text written from the instance)")
+        json_stable(ctx, "roundtrip:taillard", instance, back, "from_taillard_file(text written from the instance)")
         ctx.count("taillard_roundtrips")
     before = identity_fp(instance)
     tour(ctx, case, inst, instance)
@@ -521,8 +562,66 @@ def benchmark_case(case, ctx):
     ctx.nontrivial = True
 
 
+def generated_case(case, ctx):
+    """Instances made by the library's own generator are instances like any
+    other: views follow from their operations, and the dictionary / JSON /
+    Taillard conversions reproduce operations, name and metadata."""
+    from job_shop_lib.generation import GeneralInstanceGenerator
+
+    mpo_lo = case["mpo"][0]
+    n_m_lo = max(case["machines"][0], mpo_lo + case["mpo"][1])
+    # parameters the generator is documented to accept: enough machines for
+    # the eligible sets, and enough jobs when fewer jobs than machines are
+    # not allowed
+    jobs_lo = case["jobs"][0] if case["less"] else max(case["jobs"][0], n_m_lo)
+    generator = GeneralInstanceGenerator(
+        num_jobs=(jobs_lo, jobs_lo + case["jobs"][1]),
+        num_machines=(n_m_lo, n_m_lo + case["machines"][1]),
+        duration_range=(case["durations"][0], case["durations"][0] + case["durations"][1]),
+        allow_less_jobs_than_machines=case["less"],
+        allow_recirculation=case["recirc"],
+        machines_per_operation=(mpo_lo, mpo_lo + case["mpo"][1]),
+        name_suffix=case["suffix"],
+        seed=case["seed"],
+    )
+    for _ in range(case["skip"]):
+        generator.generate()
+    instance = generator.generate()
+    inst = {
+        "durations": [[int(o.duration) for o in job] for job in instance.jobs],
+        "machines": [[[int(x) for x in o.machines] for o in job] for job in instance.jobs],
+        "name": instance.name,
+        "meta": {},
+    }
+    check_views(ctx, inst, instance, "generated instance")
+    dct = instance.to_dict()
+    back = JobShopInstance.from_matrices(**dct)
+    same_content(ctx, "roundtrip:dict", instance, back, "generated instance, from_matrices(**to_dict())")
+    try:
+        text = json.dumps(dct)
+    except (TypeError, ValueError) as e:
+        ctx.fail("roundtrip:json", f"to_dict() of a generated instance is not JSON-serialisable ({e})")
+    from_json = JobShopInstance.from_matrices(**json.loads(text))
+    same_content(ctx, "roundtrip:json", instance, from_json, "generated instance, from_matrices(**json(to_dict()))")
+    json_stable(ctx, "roundtrip:json", instance, from_json, "generated instance, from_matrices(**json(to_dict()))")
+    flexible = any(len(ms) > 1 for row in inst["machines"] for ms in row)
+    if not flexible:
+        with tempfile.TemporaryDirectory(prefix="c14_") as tmp:
+            path = os.path.join(tmp, "instance.txt")
+            with open(path, "w", encoding="utf-8") as f:
+                f.write(taillard_text(inst, False))
+            back = JobShopInstance.from_taillard_file(path, name=instance.name, **dict(instance.metadata))
+        same_content(ctx, "roundtrip:taillard", instance, back, "generated instance, from_taillard_file(text written from it)")
+        json_stable(ctx, "roundtrip:taillard", instance, back, "generated instance, from_taillard_file(text written from it)")
+    ctx.label("generated", "flexible" if flexible else "non-flexible")
+    ctx.nontrivial = len(inst["durations"]) >= 2
+
+
 def check_case(case, ctx):
     ctx.label("kind=" + case["kind"])
+    if case["kind"] == "generated":
+        generated_case(case, ctx)
+        return
     if case["kind"] == "benchmark":
         benchmark_case(case, ctx)
     elif case["kind"] == "instance":
